@@ -46,9 +46,19 @@ def run_shard(spec, acc):
             acc.evaluations += 1
     else:
         brokerwl.shard_broker(spec, acc, PROP, 'benign')
+        import random
+        from qsmon import core
+        rngw = random.Random(spec['rng'] + 7)
+        for _ in range(6 if spec['tier'] == 'quick' else 300):
+            sp = ladderwl.wide_portfolio_script(rngw)
+            core.guarded(PROP, acc, {'wide_portfolio': sp}, ladderwl.wide_portfolio_case, sp, acc, PROP)
 
 
 def replay(case, acc):
+    if 'wide_portfolio' in case:
+        from qsmon import core
+        core.guarded(PROP, acc, case, ladderwl.wide_portfolio_case, case['wide_portfolio'], acc, PROP)
+        return
     if case.get('kind') == 'position':
         from qsmon import core
         core.guarded(PROP, acc, case, ladderwl.run_position_case, case, acc)
